@@ -8,6 +8,7 @@ C12 driver.  Requests:
   remove <keep> <force> <role s|n> <inBasis> <changed>          -> kept | backup | gone
   backup <base> <taken names joined by , or ->                  -> the name | ~
   merge <thisChanged> <otherChanged> <otherDeleted> <sameChange> <textConflict>  -> kept | helper | merged | gone
+  mm <otherChangedContent> <otherAdded> <onlyMoved>             -> recorded | absent   (merge-hashes after a merge-like command)
 (booleans are T/F)
 -/
 namespace BreezyVerif.C12
@@ -42,6 +43,11 @@ def handle : List String → String
     | some a, some b, some c, some d, some e =>
       (mergeFate { thisChanged := a, otherChanged := b, otherDeleted := c, sameChange := d, textConflict := e }).show
     | _, _, _, _, _ => "bad-op"
+  | ["mm", a, b, c] =>
+    match parseBool a, parseBool b, parseBool c with
+    | some a, some b, some c =>
+      if mergeRecords { otherChangedContent := a, otherAdded := b, onlyMoved := c } then "recorded" else "absent"
+    | _, _, _ => "bad-op"
   | _ => "bad-op"
 
 end BreezyVerif.C12
